@@ -82,6 +82,7 @@ type Body struct {
 	I        int        `json:"i"`        // provenance origin of the body bytes
 	Declared int        `json:"declared"` // stream: size passed to SetBodyStream (-1: unknown)
 	Step     int        `json:"step"`     // stream: bytes per Read of the stream (0: everything)
+	Rd       string     `json:"rd"`       // stream / file readers: how Read hands the bytes out (see patReader)
 	Kvs      []KV       `json:"kvs"`      // form: SetFormDataFromValues / multipart: SetMultipartField(k, "", "", v)
 	Files    []FilePart `json:"files"`
 }
@@ -156,26 +157,51 @@ func wireBytes(segs []Seg) []byte {
 	return b
 }
 
-// patReader yields the pattern bytes of one origin, step bytes per Read (a plain io.Reader: no length is visible)
+// patReader yields the pattern bytes of one origin as a plain io.Reader (no length is visible).  How it hands the bytes
+// out is part of the case (io.Reader allows every one of these):
+//   rd "full"      every Read fills as much as it is asked for (step > 0: at most step bytes per Read)
+//   rd "first1" | "first8" | "first511"   the FIRST Read returns at most 1 / 8 / 511 bytes, the following ones are full
+//   rd "bytewise"  one byte per Read
+//   rd "eofLast"   full reads; the Read that returns the last bytes returns io.EOF together with them
 type patReader struct {
-	data []byte
-	pos  int
-	step int
+	data  []byte
+	pos   int
+	step  int
+	rd    string
+	calls int
 }
 
 func (r *patReader) Read(p []byte) (int, error) {
 	if r.pos >= len(r.data) {
 		return 0, io.EOF
 	}
+	if len(p) == 0 {
+		return 0, nil
+	}
 	n := len(p)
 	if r.step > 0 && n > r.step {
 		n = r.step
 	}
+	switch r.rd {
+	case "first1", "first8", "first511":
+		if r.calls == 0 {
+			lim := map[string]int{"first1": 1, "first8": 8, "first511": 511}[r.rd]
+			if n > lim {
+				n = lim
+			}
+		}
+	case "bytewise":
+		n = 1
+	}
+	r.calls++
 	if n > len(r.data)-r.pos {
 		n = len(r.data) - r.pos
 	}
 	copy(p, r.data[r.pos:r.pos+n])
 	r.pos += n
+	if r.rd == "eofLast" && r.pos == len(r.data) {
+		return n, io.EOF
+	}
 	return n, nil
 }
 
@@ -530,7 +556,7 @@ func (w *worker) buildRequest(req *protocol.Request, p *Prog, cfg *Cfg) {
 	case "bytes":
 		req.SetBody(vnet.Fill(b.I, 0, b.N))
 	case "stream":
-		req.SetBodyStream(&patReader{data: vnet.Fill(b.I, 0, b.N), step: b.Step}, b.Declared)
+		req.SetBodyStream(&patReader{data: vnet.Fill(b.I, 0, b.N), step: b.Step, rd: b.Rd}, b.Declared)
 	case "form":
 		vals := url.Values{}
 		for _, kv := range b.Kvs {
@@ -542,7 +568,7 @@ func (w *worker) buildRequest(req *protocol.Request, p *Prog, cfg *Cfg) {
 			req.SetMultipartField(kv.K, "", "", strings.NewReader(kv.V))
 		}
 		for _, f := range b.Files {
-			rd := &patReader{data: vnet.Fill(f.I, 0, f.N), step: b.Step}
+			rd := &patReader{data: vnet.Fill(f.I, 0, f.N), step: b.Step, rd: b.Rd}
 			if f.API == "reader" {
 				req.SetFileReader(f.Param, f.Filename, rd)
 			} else {
